@@ -117,9 +117,23 @@ def aggregates_in(body, blocks):
     return out
 
 
-def region_tokens_de(body, blocks, facts, _depth=0):
+def dispatching_helpers(body, blocks, facts):
+    """calls, in the region, to a private de:: helper that itself matches on the schema node: [(call term, helper body)]"""
     out = []
     for b, bb, t in calls_in(body, blocks, facts):
+        tok = classify_de(b, bb, t)
+        if tok is not None and tok[0] == 'UNCLASSIFIED':
+            cb = facts.bodies.get(cname(t))
+            if cb is not None and (cb.id.startswith('de::') or cb.id.startswith('<de::')) and cb is not body and enum_regions(cb, SCHEMA_NODE):
+                out.append((t, cb))
+    return out
+
+
+def region_tokens_de(body, blocks, facts, _depth=0, skip_calls=()):
+    out = []
+    for b, bb, t in calls_in(body, blocks, facts):
+        if any(t is x for x in skip_calls):
+            continue
         tok = classify_de(b, bb, t)
         if tok is not None and tok[0] == 'UNCLASSIFIED' and _depth < 2:
             # a private helper taking the reader: look through it
@@ -152,7 +166,22 @@ def matrix_de(facts):
             continue
         cells = []
         for r in regs:
-            cells.append((r.variants, r, region_tokens_de(b, r.blocks, facts)))
+            dh = dispatching_helpers(b, r.blocks, facts)
+            if len(dh) == 1:
+                # the arm hands over to a helper with its own match on the node: one cell per arm of the helper
+                ht, hb = dh[0]
+                outer = region_tokens_de(b, r.blocks, facts, skip_calls=[ht])
+                covered = set()
+                for hr in enum_regions(hb, SCHEMA_NODE):
+                    vs = frozenset(r.variants) & frozenset(hr.variants)
+                    if vs:
+                        covered |= vs
+                        cells.append((vs, r, outer + region_tokens_de(hb, hr.blocks, facts, 1)))
+                rest = frozenset(r.variants) - covered
+                if rest:
+                    cells.append((rest, r, outer))
+            else:
+                cells.append((r.variants, r, region_tokens_de(b, r.blocks, facts)))
         res[name] = (b, cells)
     return res
 
